@@ -34,7 +34,7 @@ ASSUMPTIONS = [
     "pick the same file",
 ]
 BOUNDS = {
-    "quick": "resolve/: 2 names x 4 directories (8 existence bits), 5 -I orders, 2 look-ups; scn/: 10 scenario templates, each "
+    "quick": "resolve/: 2 names x 4 directories (8 existence bits), 5 -I orders, 2 look-ups; scn/: 13 scenario templates, each "
              "with <= 6 symbolic bits (copies that exist, -I order, -D, quote/angle)",
     "thorough": "resolve/: 3 look-ups; scn/: the same templates with all bits free",
 }
@@ -320,7 +320,53 @@ def t_c_includes_c(b):
     return fs, conf, list(files)
 
 
+def t_dotdot(b):
+    """a name with '..' is walked by the file system: through a missing directory it leads nowhere, and the search goes on"""
+    files = {
+        "/r/src/main.c": ['#include "nodir/../x.h"' if b[0] else "#include <nodir/../x.h>", "#ifdef X_SRC", "@", "#endif", "#ifdef X_INC", "@", "#endif",
+                          '#include "sub/../y.h"', "#ifdef Y", "@", "#endif"],
+        "/r/src/x.h": ["#define X_SRC", "@"],
+        "/r/src/y.h": ["#define Y", "@"],
+        "/r/src/sub/z.h": ["@"],
+        "/r/inc/x.h": ["#define X_INC", "@"],
+        "/r/inc/nodir/keep.h": ["@"],
+        "/r/inc2/x.h": ["#define X_INC", "#define X_SRC", "@"],
+    }
+    fs = scen.build_fs(files, maybe={"/r/inc/x.h": b[1]})
+    conf = {"p": [scen.entry("/r/src/main.c", [], ["/r/src", "/r/inc", "/r/inc2"] if b[2] else ["/r/inc", "/r/inc2"])]}
+    return fs, conf, list(files)
+
+
+def t_absolute(b):
+    """an absolute header name is opened directly, in the quote and in the angle form, with or without -I directories"""
+    files = {
+        "/r/src/main.c": ["#include </r/abs/a.h>" if b[0] else '#include "/r/abs/a.h"', "#ifdef A", "@", "#else", "@", "#endif",
+                          "#define H </r/abs/b.h>", "#include H", "#ifdef B", "@", "#endif"],
+        "/r/abs/a.h": ["#define A", "@", '#include "b.h"'],
+        "/r/abs/b.h": ["#pragma once", "#define B", "@"],
+    }
+    fs = scen.build_fs(files)
+    conf = {"p": [scen.entry("/r/src/main.c", [], ["/r/inc"] if b[1] else [])]}
+    return fs, conf, list(files)
+
+
+def t_forced_once(b):
+    """a #pragma once header named by -include is processed once per translation unit, however often it is forced"""
+    files = {
+        "/r/main.c": ["#if N == 1", "@", "#elif N == 2", "@", "#else", "@", "#endif", '#include "once.h"', "#if N == 3", "@", "#endif"],
+        "/r/once.h": ["#pragma once", "#ifndef N", "#define N 1", "#elif N == 1", "#undef N", "#define N 2", "#else", "#undef N", "#define N 3", "#endif", "@"],
+        "/r/wrap.h": ['#include "once.h"', "@"],
+    }
+    fs = scen.build_fs(files)
+    incs = [["once.h", "once.h"], ["wrap.h", "once.h"], ["once.h", "wrap.h", "once.h"], ["once.h"]][(1 if b[0] else 0) + (2 if b[1] else 0)]
+    conf = {"p": [scen.entry("/r/main.c", [], [], incs)]}
+    return fs, conf, list(files)
+
+
 TEMPLATES = {
+    "dotdot": (t_dotdot, 3),
+    "absolute": (t_absolute, 2),
+    "forced_once": (t_forced_once, 2),
     "pragma_variants": (t_pragma_variants, 2),
     "c_includes_c": (t_c_includes_c, 3),
     "same_name": (t_same_name, 5),
